@@ -555,6 +555,16 @@ func c02CheckReadHeader(p *Prog, r *Report, fn *ssa.Function) {
 	if n == 0 {
 		r.Trivial("C02.H2-header-keeps-source", name+" push-back keeps the source", p.Pos(fn.Pos()), "the source reader is never replaced")
 	}
+	c02CheckOverread(p, r, fn, name)
+	// … and in the read helpers it delegates to (the push-back may live there)
+	var visit func(q *c02SrcFlowResult)
+	visit = func(q *c02SrcFlowResult) {
+		for _, h := range q.helpers {
+			c02CheckOverread(p, r, h.fn, c02Name(p, h.fn))
+			visit(h)
+		}
+	}
+	visit(res)
 }
 
 // c02LocalCell: v is a load from a non-escaping local cell (an Alloc whose
